@@ -14,6 +14,7 @@
  */
 #include "sim.h"
 
+#include <stdlib.h>
 #include <string.h>
 #include <librfn/fibre.h>
 #include <librfn/util.h>
@@ -27,7 +28,7 @@ enum { P_COALESCED, P_RESTART, P_ATOMIC_MULTI, P_YIELD_REQUEUE_BEHIND, P_FAST_PA
        P_TIMERS_SAME_PASS, P_TIMER_TIE, P_TIMEOUT_IMMEDIATE, P_WRAP_0, P_WRAP_80, P_IDLE_PASS,
        P_KILL_TRUE, P_KILL_CURRENT, P_SELF_RUN, P_WAKE_NOW, P_WAKE_TIMER, P_WAKE_UNBOUNDED,
        P_SHIFT_CHECKED, P_TIMER_AND_YIELDER, P_ATOMIC_FROM_FIBRE, P_EXIT_WITH_TIMER, P_MODEL_FORKED,
-       P_WRAP_BASE_IN_C01, P_MARATHON };
+       P_WRAP_BASE_IN_C01, P_MARATHON, P_SOLO_LEAP, P_CROWD };
 static const char *const probe_names[] = {
 	"reasons_coalesced", "exited_fibre_restarted", "several_atomic_requests_drained_together",
 	"yielder_requeued_behind_others", "single_yielder_fast_path", "timer_fired",
@@ -37,7 +38,9 @@ static const char *const probe_names[] = {
 	"wakeup_is_now", "wakeup_is_timer", "wakeup_is_unbounded", "shift_invariance_compared",
 	"timer_expired_in_pass_that_requeued_a_yielder", "atomic_request_from_inside_fibre",
 	"exit_or_fail_with_timer_pending", "queued_fibre_called_fibre_timeout_model_forked",
-	"c01_history_on_wrap_placed_time_base", "marathon_of_300_to_131100_requests_and_passes", NULL };
+	"c01_history_on_wrap_placed_time_base", "marathon_of_300_to_131100_requests_and_passes",
+	"clock_leapt_most_of_2^31_while_a_lone_fibre_yielded",
+	"crowd_of_1000_to_131072_sleeping_fibres", NULL };
 
 #define MAXF 10
 #define AQ_DEPTH 8
@@ -351,6 +354,7 @@ static struct {
 	bool started;			/* body entered at its first statement  */
 	uint32_t base;
 	bool flushing;
+	bool solo;			/* a lone spinner: mostly yields, the clock leaps while nothing is pending */
 	bool quiet;			/* inside a marathon: bodies just wait, no per-call events */
 	uint32_t marathon_at;		/* step at which a marathon is inserted (UINT32_MAX: none) */
 	uint32_t steps_done;
@@ -623,6 +627,12 @@ static uint32_t pick_advance(void)
 			best = i;
 	uint32_t to_due = best >= 0 ? M.due[best] - M.now : 0;
 	uint32_t adv;
+	if (S.solo && best < 0 && ch(2)) {
+		/* nothing is pending, so any cyclically-forward time is in scope: leap most of 2^31 */
+		sim_fault(F_CLOCK_JUMP);
+		sim_probe(P_SOLO_LEAP);
+		return 0x30000000u + ch(0x4fffffffu);
+	}
 	switch (ch(10)) {
 	case 0: adv = 0; sim_fault(F_CLOCK_STALL); break;
 	case 1: adv = 1; break;
@@ -692,26 +702,57 @@ static void execute(uint32_t base, uint32_t nsteps)
 		if (step == S.marathon_at) {
 			/* a very long-lived scheduler: tens of thousands of interrupt-context requests and
 			 * passes, every one in lock step with the reference, so that 16-bit counters,
-			 * tickets and cursors anywhere under the scheduler wrap.  Bodies just wait. */
-			static const uint32_t lens[] = { 300, 65530, 65540, 66000, 70000, 131100 };
-			uint32_t k = lens[ch(6)] + ch(8);
-			sim_ev("marathon", k, 0, 0);
+			 * stamps, tickets and cursors anywhere under the scheduler wrap.  Bodies just wait.
+			 * Fibres 0..rot-1 are woken in rotation; the others are "victims" woken rarely, at
+			 * gaps of 65536/c + e iterations (and first after such a gap), which is where a
+			 * wrapped stamp or epoch would alias. */
+			static const uint32_t lens[] = { 300, 65530, 65560, 66000, 70000, 131200 };
+			/* Half the marathons are perfectly regular (every iteration makes the same calls), so
+			 * that whatever the library counts - drains, removals, requests, dispatches - advances
+			 * by the same amount per iteration and a victim woken twice exactly 65536 iterations
+			 * apart (a few either side for its own contribution) sees every 16-bit count alias. */
+			bool regular = ch(2);
+			uint32_t k = regular ? 65536 + 100 + ch(64) : lens[ch(6)] + ch(8);
+			uint32_t passes = 1 + ch(3);
+			bool holds = !regular && ch(2);
+			int rot = nf > 1 ? 1 + (int)ch(nf - 1) : 1;
+			uint32_t next_wake[MAXF], gap[MAXF];
+			for (int v = rot; v < nf; v++) {
+				if (regular) {
+					gap[v] = 65536 + ch(9) - 6;
+					next_wake[v] = ch(32);
+				} else {
+					uint32_t c = 1 + ch(6);
+					gap[v] = 65536 / c + ch(25) - 12;
+					next_wake[v] = ch(2) ? gap[v] : ch(64);
+				}
+			}
+			sim_ev("marathon", k, passes * 2 + holds, rot);
 			sim_probe(P_MARATHON);
 			S.quiet = true;
 			for (uint32_t i = 0; i < k; i++) {
-				int y = i % nf;
-				bool hold = (i & 63) >= 56 && M.natomic < AQ_DEPTH - 1;	/* now and then let the queue fill */
-				sim_budget(2000000);
-				bool r = fibre_run_atomic(&tf[y]->fibre);
-				real_accepted_overflow = r;
-				bool m = apply_op(OP_ATOMIC, y, 0, true, r);
-				if (r != m)
-					sim_fail("C01", "ATOMIC_RET", "fibre_run_atomic returned %d with %d request(s) undrained (request %u of a long run)", r, M.natomic - (m ? 1 : 0), i);
+				int y = i % rot;
+				bool hold = holds && (i & 63) >= 56 && M.natomic < AQ_DEPTH - 2;	/* now and then let the queue fill */
+				for (int v = rot - 1; v < nf; v++) {
+					if (v >= rot && i != next_wake[v])
+						continue;
+					if (v >= rot) {
+						next_wake[v] += gap[v];
+						y = v;
+						if (M.natomic >= AQ_DEPTH)
+							continue;
+					}
+					sim_budget(2000000);
+					bool r = fibre_run_atomic(&tf[y]->fibre);
+					real_accepted_overflow = r;
+					bool m = apply_op(OP_ATOMIC, y, 0, true, r);
+					if (r != m)
+						sim_fail("C01", "ATOMIC_RET", "fibre_run_atomic returned %d with %d request(s) undrained (request %u of a long run)", r, M.natomic - (m ? 1 : 0), i);
+				}
 				if (!hold) {
 					t += i & 1;
 					sim_clock = t;
-					do_pass(t);
-					if (M.nrun > 0)
+					for (uint32_t q = 0; q < passes; q++)
 						do_pass(t);
 				}
 			}
@@ -808,6 +849,126 @@ static void execute(uint32_t base, uint32_t nsteps)
 	S.flushing = false;
 }
 
+/* ---- a crowd: tens of thousands of fibres asleep at once -------------------------------
+ * "Any number of fibres": set up and torn down in O(n) library work (each fibre is started and
+ * dispatched alone, due times decrease with the registration order so every sorted insert is
+ * at the head, and exactly one timeout falls due per pass). */
+typedef struct {
+	fibre_t fibre;
+	uint32_t id, due;
+	bool dead;
+} cf_t;
+static cf_t *crowd_f;
+static uint32_t crowd_last, crowd_calls;
+static bool crowd_timeout_ret, crowd_spurious;
+
+static int crowd_body(fibre_t *f)
+{
+	cf_t *c = containerof(f, cf_t, fibre);
+	PT_BEGIN_FIBRE(f);
+	crowd_last = c->id;
+	crowd_calls++;
+	crowd_timeout_ret = fibre_timeout(c->due);
+	PT_WAIT();
+	crowd_last = c->id;	/* woken by the expiry of its timeout */
+	crowd_calls++;
+	PT_WAIT();
+	crowd_last = c->id;	/* there is no reason for a third dispatch */
+	crowd_calls++;
+	crowd_spurious = true;
+	PT_END();
+}
+
+static void crowd(void)
+{
+	/* starting a fibre costs the library a search of the timer queue, so a crowd of n costs n^2/2
+	 * steps: the 16-bit boundary sizes (a minute each) run in the thorough tier only, one per
+	 * worker (run indices 0-15); everywhere else crowds stay below 3000 */
+	static const uint32_t big[] = { 65536, 65537, 65535, 65538 };
+	static const uint32_t bases[] = { 1000, 0xffff0000u, 0x7fff0000u, 0xfffffff0u };
+	bool huge = sim_thorough() && sim_run_index() < 16;
+	uint32_t n = huge ? big[sim_run_index() % 4] : 2 + ch(sim_choose(2) ? 300 : 3000);
+	uint32_t T = bases[ch(4)];
+	uint32_t stride = 1 + ch(3);
+	uint32_t nkill = ch(3);
+	free(crowd_f);
+	crowd_f = calloc(n, sizeof(cf_t));
+	if (!crowd_f)
+		sim_discard("no memory for a crowd");
+	crowd_calls = 0;
+	crowd_spurious = false;
+	sim_ev("crowd", n, T, stride * 4 + nkill);
+	sim_probe(P_CROWD);
+	sim_clock = T;
+	for (uint32_t i = 0; i < n; i++) {
+		cf_t *c = &crowd_f[i];
+		c->id = i;
+		c->due = T + 10 + (n - 1 - i) * stride;
+		fibre_init(&c->fibre, crowd_body);
+		sim_budget(2000000);
+		fibre_run(&c->fibre);
+		uint32_t before = crowd_calls;
+		uint32_t wake = fibre_scheduler_next(T);
+		if (crowd_calls != before + 1 || crowd_last != i)
+			sim_fail(NULL, "DISPATCH:crowd", "fibre %u of %u was made runnable but the next pass dispatched %s (fibre %u)",
+				 i, n, crowd_calls == before ? "nothing" : "something else", crowd_last);
+		if (crowd_timeout_ret)
+			sim_fail(NULL, "TIMEOUT_RET", "fibre_timeout(now+%u) returned true (fibre %u of a crowd)", c->due - T, i);
+		if (wake != c->due && sim_prop_is("C03"))
+			sim_fail(NULL, "WAKEUP_VALUE", "with %u fibres asleep fibre_scheduler_next returned t%+d, the earliest pending due time is t+%u",
+				 i + 1, (int32_t)(wake - T), c->due - T);
+	}
+	sim_ops(n);
+	sim_check_sanitizer();
+	/* a few are killed: the number of pending timeouts moves by one or two */
+	for (uint32_t k = 0; k < nkill; k++) {
+		uint32_t v = ch(n);
+		sim_budget(40000000);
+		bool r = fibre_kill(&crowd_f[v].fibre);
+		if (r != !crowd_f[v].dead)
+			sim_fail(NULL, "KILL_RET", "fibre_kill of sleeper %u in a crowd of %u returned %d", v, n, r);
+		crowd_f[v].dead = true;
+		sim_fault(F_KILL);
+	}
+	/* one timeout falls due per pass, in due order */
+	uint32_t t = T;
+	for (uint32_t j = n; j-- > 0;) {
+		cf_t *c = &crowd_f[j];
+		if (c->dead)
+			continue;
+		uint32_t next = j;
+		while (next-- > 0 && crowd_f[next].dead)
+			;
+		bool more = next != UINT32_MAX && next < j;
+		t = c->due;
+		sim_clock = t;
+		sim_budget(2000000);
+		uint32_t before = crowd_calls;
+		uint32_t wake = fibre_scheduler_next(t);
+		if (crowd_calls == before)
+			sim_fail(NULL, "LATE_FIRE:crowd", "with %u fibres asleep the pass at the due time of fibre %u dispatched nothing",
+				 j + 1, j);
+		if (crowd_calls != before + 1 || crowd_last != j || crowd_spurious)
+			sim_fail(NULL, "EXPIRY_ORDER:crowd", "the pass at the due time of fibre %u dispatched fibre %u%s", j, crowd_last,
+				 crowd_spurious ? " for a third time" : "");
+		uint32_t want = more ? crowd_f[next].due : t + FIBRE_UNBOUNDED_SLEEP;
+		if (wake != want && sim_prop_is("C03"))
+			sim_fail(NULL, "WAKEUP_VALUE", "with %u fibres still asleep fibre_scheduler_next returned t%+d, expected t%+d",
+				 j, (int32_t)(wake - t), (int32_t)(want - t));
+	}
+	sim_ticks(t - T);
+	sim_budget(2000000);
+	uint32_t before = crowd_calls;
+	uint32_t wake = fibre_scheduler_next(t + 1000);
+	if (crowd_calls != before || (wake != t + 1000 + FIBRE_UNBOUNDED_SLEEP && sim_prop_is("C03")))
+		sim_fail(NULL, "EXTRA_DISPATCH:crowd", "after every fibre of the crowd had been woken once a further pass dispatched fibre %u or returned t%+d",
+			 crowd_last, (int32_t)(wake - t - 1000));
+	sim_check_sanitizer();
+	sim_ev("crowd_end", crowd_calls, 0, 0);
+	free(crowd_f);
+	crowd_f = NULL;
+}
+
 static void run(void)
 {
 	static const uint32_t bases[] = { 0, 0x7fffffffu, 0x80000000u, 0xffffffffu, 0xfffffff0u,
@@ -821,6 +982,10 @@ static void run(void)
 	S.c02 = !sim_prop_is("C01");	/* C02 and C03 use the timer-heavy, wrap-placed swarm */
 	if (sim_prop_is("C03"))
 		S.c02 = sim_choose(2);
+	if ((sim_thorough() && sim_run_index() < 16) || sim_chance(1, 3000)) {
+		crowd();
+		return;
+	}
 	nf = sim_choose(4) ? 1 + sim_choose(6) : 1 + sim_choose(MAXF);
 	uint32_t nsteps = 5 + sim_choose(56);
 	if (sim_chance(1, 16))
@@ -857,6 +1022,19 @@ static void run(void)
 		S.w_wait = 1 + sim_choose(4);
 		S.w_exit = sim_choose(3);
 		S.w_fail = sim_choose(2);
+	}
+	S.solo = S.c02 && sim_chance(1, 25);
+	if (S.solo) {
+		/* one or two fibres that mostly yield (the scheduler's single-yielder fast path), a clock
+		 * that leaps while no timeout is pending, and now and then a timeout */
+		nf = 1 + sim_choose(2);
+		S.w_yield = 8;
+		S.w_wait = 1;
+		S.w_timeout = 1 + sim_choose(2);
+		S.w_exit = S.w_fail = 0;
+		S.w_kill = 0;
+		if (nsteps < 30)
+			nsteps = 30 + sim_choose(30);
 	}
 	uint32_t shift = 0;
 	bool do_shift = sim_prop_is("C02") && sim_choose(3) == 0;
